@@ -404,6 +404,11 @@ JudgeEmit(tr, T, ev) ==
                                    /\ (a.md.v * VolCents(a.vol) > T.wlmaxc => (r1.md + 1) * VolCents(a.vol) > T.wlmaxc)))
        /\ (VolCents(a.vol) = 0 => r1.md = a.md.v)),
     Cl("C09.r.bad", fn = "reagent_distribution" /\ ~RArgsValid(T, a), ~ok /\ none),
+    \* C06: never more multi-dispenses per aspiration than fit into max_volume, reduced only as far as needed
+    Cl("C06.rmultidisp", fn = "reagent_distribution" /\ RArgsValid(T, a) /\ ok /\ n = 1 /\ VolCents(a.vol) > 0,
+       /\ r1.md >= 1 /\ r1.md <= a.md.v /\ r1.md * VolCents(a.vol) <= T.wlmaxc
+       /\ (a.md.v * VolCents(a.vol) <= T.wlmaxc => r1.md = a.md.v)
+       /\ (a.md.v * VolCents(a.vol) > T.wlmaxc => (r1.md + 1) * VolCents(a.vol) > T.wlmaxc)),
     Cl("C09.emit.one", ok /\ fn # "comment", n = 1)
   }
 
